@@ -162,7 +162,21 @@ func lifeFamily(id, tier string, p map[string]bool, tweak func(kind string, o *L
 	if tweak != nil {
 		tweak("all", &f)
 	}
-	return []*engine.Scenario{LifeScenario(a), LifeScenario(b), LifeScenario(c), LifeScenario(dd), LifeScenario(e), LifeScenario(f)}
+	// g: one of the three providers holds the super role (first pick of every order, round-robin cursor, ignore lists
+	// applied to the super node as well)
+	g := baseLife(id, tier, p)
+	g.ID = id + "-life-super"
+	g.Cfg = world.Config{TwoValidators: true, VstorageThresh: 1_000_000}
+	g.SuperS1 = true
+	g.Update, g.Cancel = true, true
+	g.Depth = 5
+	if tier == "thorough" {
+		g.Depth = 7
+	}
+	if tweak != nil {
+		tweak("super", &g)
+	}
+	return []*engine.Scenario{LifeScenario(a), LifeScenario(b), LifeScenario(c), LifeScenario(dd), LifeScenario(e), LifeScenario(f), LifeScenario(g)}
 }
 
 func init() {
